@@ -70,8 +70,8 @@ Print Assumptions C18_roundtrip_used_destination.
 
 (* ------------------------------------------------------------------------------------------------ *)
 (** * Clause 2: the pcore type derived from the Go type accepts the wrapped value.
-      Outside the input classes of the open findings uint64-ge-2^63, float-nonfinite, nil-slice-map-undef
-      (guard acc_ok). *)
+      Outside the input classes of the open findings uint64-ge-2^63, float32-nonfinite (a float32 that is NaN or an
+      infinity; every float64 is inside), nil-slice-map-undef (guard acc_ok). *)
 Theorem C18_ptype_accepts :
   forall (ffmt : Z -> str) v t,
     has_type v t = true -> acc_ok true t v = true -> inst (ptype_of t) (wrap ffmt t v) = true.
@@ -172,12 +172,31 @@ Theorem C18_uint64_max_roundtrips :
 Proof. intros. vm_compute. reflexivity. Qed.
 Print Assumptions C18_uint64_max_roundtrips.
 
-(* float-nonfinite: +Inf is an instance of no Float type, not even of the one derived from float64 *)
-Theorem C18_float_nonfinite_refuted :
+(* float32-nonfinite: the type derived from float32 is the range of the finite float32 values, which contains
+   neither the float32 infinities nor NaN (what is left of the fixed finding float-nonfinite) *)
+Theorem C18_float32_nonfinite_refuted :
   exists t v, has_type v t = true /\ acc_ok true t v = false /\
               forall ffmt, inst (ptype_of t) (wrap ffmt t v) = false.
-Proof. exists GFloat64, (GVFloat 9218868437227405312). vm_compute. auto. Qed.
-Print Assumptions C18_float_nonfinite_refuted.
+Proof. exists GFloat32, (GVFloat 9218868437227405312). vm_compute. auto. Qed.
+Print Assumptions C18_float32_nonfinite_refuted.
+
+(* ... while float64 has no exclusion (fixed finding float-nonfinite): the type derived from float64 is the unbounded
+   Float type, which holds +Inf, -Inf and NaN; acc_ok does not look at a float64 *)
+Theorem C18_float64_nonfinite_accepted :
+  forall ffmt b, has_type (GVFloat b) GFloat64 = true ->
+    acc_ok true GFloat64 (GVFloat b) = true /\ inst (ptype_of GFloat64) (wrap ffmt GFloat64 (GVFloat b)) = true.
+Proof. intros ffmt b _. split; [reflexivity|]. cbn. apply Bool.orb_true_r. Qed.
+Print Assumptions C18_float64_nonfinite_accepted.
+
+Example C18_float64_nonfinite_nonvacuous :
+  let ffmt := fun _ : Z => @nil N in
+  let t := GSlice GFloat64 in
+  let v := GVSlice (Some [GVFloat 9218868437227405312; GVFloat 18442240474082181120; GVFloat 9221120237041090561; GVFloat 0]) in
+  has_type v t = true /\ acc_ok true t v = true /\ inst (ptype_of t) (wrap ffmt t v) = true /\
+  inst (TFloat 0 9218868437227405312) (VFloat 9218868437227405312) = true /\      (* Float[0.0, +Inf] holds +Inf *)
+  inst (TFloat 0 9218868437227405312) (VFloat 9221120237041090561) = false /\     (* ... and not NaN *)
+  inst (TFloat 9221120237041090561 9221120237041090561) (VFloat 9221120237041090561) = false.
+Proof. vm_compute. repeat split; reflexivity. Qed.
 
 (* nil-slice-map-undef: []int8(nil) wraps to undef, the derived type is Array[Integer[-128,127]] *)
 Theorem C18_nil_slice_map_undef_refuted :
@@ -192,7 +211,7 @@ Print Assumptions C18_statement_ptype_accepts_refuted.
 
 (* ------------------------------------------------------------------------------------------------ *)
 (** * The guards exclude nothing else: values without nil slices/maps, pointers to pointers, uint64 >= 2^63,
-      non-finite floats and non-canonical interface content pass both guards *)
+      non-finite float32 values and non-canonical interface content pass both guards *)
 Theorem C18_guards_only_exclude_findings :
   forall v w t, plain_value t v = true -> rt_ok w t v = true /\ acc_ok w t v = true.
 Proof. exact plain_value_guards. Qed.
